@@ -72,6 +72,15 @@ CHECKS = {
             'every single-bit flip of a small .gz against a reference inflater.',
             'Python zlib is the reference inflater; a valid member followed by extra bytes only has to not crash.',
             'bounded-exhaustive differential exploration (X vs gzip(X)) plus exhaustive single-fault enumeration of the stream'),
+    'C06': ('fault_enumeration', '4 C06',
+            'Real FM/MFM track decoders run in-process under ASan on valid tracks with distinct per-sector data subjected to '
+            'every single bit flip, deletion, insertion, zeroed run and truncation point (3-sector tracks; full 10/18-sector '
+            'tracks for flips and byte-step slips), pairs of flips over the field-structure bits, and at image level every '
+            'subset (thorough; <=2 quick) of damaged sectors of a small HFE(FM/MFM) / HxC-MFM disc read back sector by '
+            'sector through dump-sector.',
+            'A sector that passes CRC but is no recorded data is a CRC collision and is only counted; encoders validated '
+            'by the pristine decode in every case.',
+            'exhaustive single-fault (and bounded double-fault) enumeration over track bit-streams, in-process decoder + real binary'),
 }
 
 NA_REASON = 'check not built yet (work in progress; see DESIGN.md section 4)'
